@@ -2,7 +2,7 @@
    Every theorem is about the model coq/Slab/SlabModel.v for EVERY state s (reachable or not), every op, every
    configuration with cfg_ok; "needs a mapping" is the decidable [map_len c s o = Some len]. *)
 From Coq Require Import List NArith Bool.
-From FV Require Import Slab.SlabModel Slab.SlabFail.
+From FV Require Import Slab.SlabModel Slab.SlabFail Slab.SlabC01 Slab.SlabC02.
 Import ListNotations.
 Local Open Scope N_scope.
 
@@ -28,6 +28,19 @@ Theorem C04_failed_call_invisible :
     trace_from c s (o :: rest) = (res_of (step c s o), cbs_of (step c s o)) :: trace_from c s rest.
 Proof. exact failed_op_is_invisible. Qed.
 Print Assumptions C04_failed_call_invisible.
+
+(* In an admissible history the failed call cannot stop in an assertion either: it returns null, the state is equal,
+   the only policy call is the failing map.  (That later requests succeed as soon as map succeeds again is
+   C01_allocate_succeeds; that C01's conclusions hold for the continued history is C01 itself.) *)
+Theorem C04_failed_call_returns_null :
+  forall (c : cfg) (ops : list op) (o : op) (len : N) (e : env),
+    cfg_ok c = true -> policy_ok c (ops ++ [o]) -> api_ok c (ops ++ [o]) -> history_short (ops ++ [o]) ->
+    let s := run c ops in
+    map_len c s o = Some len -> op_env o = Some e -> env_ret e = 0 ->
+    st_of (step c s o) = s /\ res_of (step c s o) = RNull
+    /\ policy_calls (cbs_of (step c s o)) = [CMap len (if aligned c then sb c else 0) 0].
+Proof. exact C04_null_main. Qed.
+Print Assumptions C04_failed_call_returns_null.
 
 (* non-vacuity: first slab of a class, large frame, and the allocate inside a copying realloc, each failing *)
 Definition c04_cfg : cfg := mkCfg 4096 4096 4096 4 true true 40 104.
